@@ -599,7 +599,7 @@ def run(chk, budget):
         R.run_block("glob{/ab*?}", strings("/ab*?", pl), keys3(kl), ["glob_match"], wrappers_every=997)
     if b["G2"]:
         pl, kl = b["G2"]
-        R.run_block("glob{/a*[]!-\\}", strings("/a*[]!-\\", pl), strings("/a]-!", kl), ["glob_match"], wrappers_every=997)
+        R.run_block("glob{/a*[]!-\\}", strings("/a*[]!-\\", pl), strings("/a]-\\", kl), ["glob_match"], wrappers_every=997)
     # A: all functions, every pattern over {/ a b : * { } ?}
     if b["A"]:
         pl, kl = b["A"]
@@ -619,7 +619,7 @@ def run(chk, budget):
     # E: range_match
     if b["classes"]:
         cl, nrand = b["classes"]
-        R.run_range(strings("ab]\\-!^", cl), "ab-]!^c", "range{ab]\\-!^}")
+        R.run_range(strings("ab]\\-!^", cl), "ab-]!^c\\", "range{ab]\\-!^}")
         bodies, docs = class_cases(rng, nrand)
         R.run_range(bodies, "abcdxyz0159_-]", "range-documented", doc=docs)
     # C: generated longer paths, every function, wrappers and registered names on every case
@@ -839,7 +839,7 @@ def main():
     chk.nontrivial = BulkSet()
     chk.rule = (
         "(key, pattern) pairs: (G) glob_match on every pattern over {/ a b * ?} and over {/ a * [ ] ! - \\} up to the stated "
-        "length x every key over {/ a b} resp. {/ a ] - !}; (A) all nine functions on every pattern over {/ a b : * { } ?} "
+        "length x every key over {/ a b} resp. {/ a ] - \\}; (A) all nine functions on every pattern over {/ a b : * { } ?} "
         "x every key over {/ a b} plus keys with a query string; (B) every string over {/ a b : * { }} up to a larger "
         "length that is in the documented form of keyMatch2/3/4/5 (extracted doc2..doc5) x longer keys, key_get2/3 asked "
         "for every variable name of the pattern and one absent name; (N) regex-forwarded characters and newline keys; "
